@@ -59,6 +59,7 @@ _EMPTY_SERVICES_LIST: List[ServiceInfo] = []
 _EMPTY_TYPES_LIST: List[str] = []
 
 _IPVersion_ALL = IPVersion.All
+_QUARTER_TTL_MILLIS = 250  # a quarter of a TTL given in seconds, in milliseconds
 
 _int = int
 _str = str
@@ -178,7 +179,11 @@ class _QueryResponse:
         if TYPE_CHECKING:
             record = cast(_UniqueRecordsType, record)
         maybe_entry = self._cache.async_get_unique(record)
-        return bool(maybe_entry is not None and maybe_entry.is_recent(self._now))
+        if maybe_entry is None:
+            return False
+        # A quarter of the TTL the record is sent with: the cached copy
+        # of a PTR has its TTL raised to the minimum PTR TTL
+        return bool(maybe_entry.created + (_QUARTER_TTL_MILLIS * record.ttl) > self._now)
 
     def _has_mcast_record_in_last_second(self, record: DNSRecord) -> bool:
         """Check if an answer was seen in the last second.
